@@ -1288,6 +1288,9 @@ impl<Sink: TokenSink> XmlTokenizer<Sink> {
 
     fn finish_attribute(&self) {
         if self.current_attr_name.borrow().is_empty() {
+            // A value collected without a name (`<a /x>`) belongs to no attribute;
+            // it must not be left behind for the next one.
+            self.current_attr_value.borrow_mut().clear();
             return;
         }
 
